@@ -25,5 +25,11 @@ pub mod program;
 pub mod span;
 pub mod token;
 
+/// Verification hooks (only with the `verif-hooks` feature).
+#[cfg(feature = "verif-hooks")]
+pub mod verif {
+    pub use crate::gc::verif::heap;
+}
+
 type FHashMap<K, V> = std::collections::HashMap<K, V, foldhash::fast::RandomState>;
 type FHashSet<T> = std::collections::HashSet<T, foldhash::fast::RandomState>;
